@@ -79,20 +79,23 @@ def unit_validate(classes_given, cost_given, refit):
         @L.fn("check_cost_matrix")
         def _ccm(E, st, args, kw, node):
             """check_cost_matrix(C, K): raises unless C is a K x K matrix of finite numbers; returns it as an array with equal entries"""
-            a = as_array(args[0], st)
-            st.assume(to_int(a.shape[0]) == to_int(args[1]), to_int(a.shape[1]) == to_int(args[1]))
-            return args[0]
+            cm = args[0] if args else kw["cost_matrix"]
+            k = args[1] if len(args) > 1 else kw["n_classes"]
+            a = as_array(cm, st)
+            st.assume(to_int(a.shape[0]) == to_int(k), to_int(a.shape[1]) == to_int(k))
+            return cm
 
         @L.fn("check_n_features")
         def _cnf(E, st, args, kw, node):
-            od = st.get(args[0])
-            st.put(args[0], ObjData(od.cls, dict(od.fields, n_features_in_=Opaque("n_features_in_"))))
+            est = args[0] if args else kw["estimator"]
+            od = st.get(est)
+            st.put(est, ObjData(od.cls, dict(od.fields, n_features_in_=Opaque("n_features_in_"))))
             return None
 
         @L.fn("check_random_state")
         def _crs(E, st, args, kw, node):
             r = st.alloc(RngData(fresh_fn("stream", I, R), fresh("pos", I), fresh("aux", I)))
-            h.setdefault("rng_created", []).append((r, args[0] if args else None))
+            h.setdefault("rng_created", []).append((r, args[0] if args else kw.get("random_state")))
             return r
         return L
 
